@@ -34,6 +34,7 @@ Inductive label :=
 | LClockPause | LClockResume | LClockScale
 | LSaveCond (b : bool) | LSaveCondRaise | LSaveB | LSaveE | LSaveRaise
 | LInterrupt
+| LLaunchDone (raised : bool)   (* launch() is over: it returned, or it raised *)
 | LOther.     (* bookkeeping marks of the harness (http answers, component save marks): no effect *)
 
 Inductive bkind := KInf | KTrain.
@@ -106,7 +107,7 @@ Record st := {
   pp : nat -> ppc; pres : nat -> bool; (* pool workers and their results *)
   cp : cpc;
   running : bool;                      (* ControlThread._running *)
-  craised : bool;                      (* the control thread's body raised / was interrupted *)
+  craised : bool;                      (* the control loop or the final save raised: launch() will re-raise *)
   queue : list cmd;
   acked : bool;                        (* ghost: a pause has been acknowledged and no resume/shutdown issued since *)
   saving : bool;                       (* ghost: inside StateStore.save_state *)
@@ -322,7 +323,8 @@ Definition ctl_step (s : st) (l : label) : option st :=
               saving := saving s; client_done := client_done s; web := 1 |}
   (* on_tick *)
   | CTickCond, LSaveCond b => Some (ctl s (if b then CSave0 KCond else drain_pc))
-  | CTickCond, LInterrupt => Some (exc_goto s)
+  (* a KeyboardInterrupt: the same way out, but launch() swallows it *)
+  | CTickCond, LInterrupt => Some (set_misc s (CShut0 KFinally) (clk s) (acked s) false (running s) (craised s) (shut s) (queue s))
   | CTickCond, LSaveCondRaise => Some (exc_goto s)
   | CDrain, LQEmpty b =>
       if Bool.eqb b (match queue s with [] => true | _ => false end) then Some (ctl s (if b then poll_pc else CGet)) else None
@@ -394,7 +396,8 @@ Definition ctl_step (s : st) (l : label) : option st :=
   | CFinSave1, LSaveE => Some (set_misc s CDone (clk s) (acked s) false (running s) (craised s) (shut s) (queue s))
   | CFinSave1, LSaveRaise => Some (set_misc s CDone (clk s) (acked s) false (running s) true (shut s) (queue s))
   | CFinSave1, LOther => Some s
-  | CDone, LOther => Some (ctl s CJoinClient)
+  (* launch() re-raises exactly the failures of the control loop and of the final save *)
+  | CDone, LLaunchDone r => if Bool.eqb r (craised s) then Some (ctl s CJoinClient) else None
   | CJoinClient, LJoin TClient => if client_done s then Some (ctl s CMainExit) else None
   | CMainExit, LExit _ => Some (ctl s CMainDone)
   | _, _ => None
